@@ -46,8 +46,15 @@ def verify_one(job):
             mod = importlib.import_module(m)
             dsl.load_spec_sources(mod)
         prog = Program()
+        if job['fid'] not in dsl.REGISTRY:
+            out['error'] = 'no contract registered for %s' % job['fid']
+            return out
         c = dsl.REGISTRY[job['fid']]
-        fi = prog.func(job['fid'])
+        try:
+            fi = prog.func(c.base_fid)
+        except KeyError as exc:
+            out['error'] = 'contract target missing in current tree: %s' % exc
+            return out
         terms.reset_fresh()
         if job.get('mode', 'pure') == 'pure':
             from pyvc.engine import PureExecutor
@@ -63,12 +70,11 @@ def verify_one(job):
             d = ob.to_json()
             out['obligations'].append(d)
             if ob.verdict == 'refuted':
-                model = vcmod.decode_model(ob.model or '', fi.params)
+                allp = list(fi.params) + list(c.ghosts)
+                model = vcmod.decode_model(ob.model or '', allp)
                 out['refuted'].append({'name': ob.name, 'model': _jsonable_model(model),
                                        'solver_output': (ob.model or '')[:4000], 'detail': ob.detail,
-                                       'params': fi.params})
-    except KeyError as exc:
-        out['error'] = 'contract target missing in current tree: %s' % exc
+                                       'params': allp, 'nreal': len(fi.params)})
     except Exception:
         out['error'] = traceback.format_exc()[-3000:]
     out['wall_s'] = round(time.time() - t0, 2)
@@ -124,9 +130,9 @@ def model_candidates(model, params, limit=24):
     return cands
 
 
-def replay_pure(contract_module, fid, obligation, params, candidates):
+def replay_pure(contract_module, fid, obligation, params, candidates, nreal=None):
     job = {'contract_module': contract_module, 'fid': fid, 'obligation': obligation, 'params': params,
-           'candidates': candidates}
+           'candidates': candidates, 'nreal': len(params) if nreal is None else nreal}
     p = subprocess.run([VENV_PY, os.path.join(VERIF, 'rcc', 'replay.py')], input=json.dumps(job),
                        capture_output=True, text=True, timeout=120, cwd=VERIF)
     if p.returncode != 0:
@@ -281,7 +287,7 @@ def main(argv=None):
 
 def handle_refuted(run, spec, fid, ref, baseline):
     obname = ref['name']
-    short = obname.split('#', 1)[1]
+    short = obname[len(fid) + 1:]
     cmod = None
     for m in spec.CONTRACT_MODULES:
         if fid in _fids_of(m):
@@ -291,7 +297,7 @@ def handle_refuted(run, spec, fid, ref, baseline):
     if model is not None and getattr(spec, 'REPLAY', 'pure') == 'pure':
         try:
             cands = model_candidates(model, ref['params'])
-            rep = replay_pure(cmod, fid, short, ref['params'], cands)
+            rep = replay_pure(cmod, fid, short, ref['params'], cands, ref.get('nreal'))
         except ValueError as exc:
             rep = {'reproduced': False, 'error': str(exc), 'undecodable': True}
     if rep and rep.get('reproduced'):
